@@ -4,6 +4,8 @@ import (
 	"bytes"
 	"encoding/json"
 	"fmt"
+	"go/ast"
+	"go/parser"
 	"go/token"
 	"reflect"
 	"sort"
@@ -98,7 +100,7 @@ func init() {
 	core.Register(&core.Prop{
 		ID:    "C06",
 		Level: "model_checking",
-		Rule: "every node instance of every corpus tree, as parsed and with every decoration point of every node filled: Clone compared field by field (reflection), storage disjointness of everything reachable, " +
+		Rule: "a decorated three-file Package node, and every node instance of every corpus tree, as parsed and with every decoration point of every node filled: Clone compared field by field (reflection), storage disjointness of everything reachable, " +
 			"mutation of every decoration list / slice / scalar of either side leaves the other unchanged, clone substituted in its parent prints identically; every (node, type-compatible slot) pair, and every path-carrying identifier of the import-bearing templates under import management: shared placement must panic " +
 			"'duplicate node' with no output, cloned placement prints both; every node placed additionally at its own position in a second copy of its file, both files restored by one Restorer: the second restore must panic 'duplicate node', a clone must be accepted; state = (tree variant, node[, slot]); non-trivial = node with children or decorations",
 		Assumptions: []string{"reflection sees all exported fields (dst nodes have no unexported state)"},
@@ -126,6 +128,12 @@ func init() {
 }
 
 func runC06(ctx *core.Ctx, unit int) {
+	if unit == 0 {
+		cs := c06Case{Mode: "package"}
+		ctx.State("package", true)
+		ctx.Eval(cs, c06Check(cs))
+		ctx.R.Transitions++
+	}
 	if n := 3 * len(gen.Templates()); unit >= n {
 		// path-carrying identifiers shared between two places of an import-managed tree
 		var names []string
@@ -250,10 +258,64 @@ func runC06(ctx *core.Ctx, unit int) {
 	}
 }
 
+// c06Package clones a decorated three-file package node.
+func c06Package(fail func(string, string, ...interface{}) core.Outcome) core.Outcome {
+	build := func() *dst.Package {
+		fset := token.NewFileSet()
+		files := map[string]*ast.File{}
+		for i, name := range []string{"vars", "comments", "funcs"} {
+			t, _ := gen.Find(gen.Templates(), name)
+			af, err := parser.ParseFile(fset, fmt.Sprintf("f%d.go", i), t.Src, parser.ParseComments)
+			if err != nil {
+				panic(err)
+			}
+			files[fmt.Sprintf("f%d.go", i)] = af
+		}
+		dn, err := decorator.NewDecorator(fset).DecorateNode(&ast.Package{Name: "a", Files: files})
+		if err != nil {
+			panic(err)
+		}
+		return dn.(*dst.Package)
+	}
+	pkg := build()
+	var c dst.Node
+	if p := guard(func() { c = dst.Clone(pkg) }); p != "" {
+		return fail("clone-panic:Package", "Clone(Package) panicked: %s", p)
+	}
+	if d := deepCompare(reflect.ValueOf(dst.Node(pkg)), reflect.ValueOf(c), "Package", true); d != "" {
+		return fail("clone-incomplete:"+fieldKey(d), "Clone(Package) differs from the original: %s", d)
+	}
+	so, sc := map[uintptr]string{}, map[uintptr]string{}
+	storage(reflect.ValueOf(dst.Node(pkg)), "Package", so)
+	storage(reflect.ValueOf(c), "Package", sc)
+	for addr, p := range sc {
+		if q, ok := so[addr]; ok {
+			return fail("clone-shares-storage:"+fieldKey(p), "Clone(Package) shares storage with the original: copy %s aliases original %s", p, q)
+		}
+	}
+	cp := c.(*dst.Package)
+	for name, f := range pkg.Files {
+		cf := cp.Files[name]
+		if cf == nil {
+			return fail("clone-incomplete:Package.Files", "file %s missing in the clone", name)
+		}
+		want := mustPrint(f)
+		mutateAll(f)
+		got, err := printFile(cf)
+		if err != nil || got != want {
+			return fail("clone-mutation-leak:Package", "file %s of the cloned package prints differently after the original was mutated (err %v)\n%s", name, err, diffDesc(want, got))
+		}
+	}
+	return core.Outcome{OK: true}
+}
+
 func c06Check(cs c06Case) core.Outcome {
 	fail := func(key, f string, a ...interface{}) core.Outcome {
 		b, _ := json.Marshal(cs)
 		return core.Outcome{Key: key, Desc: string(b) + "\n" + fmt.Sprintf(f, a...)}
+	}
+	if cs.Mode == "package" {
+		return c06Package(fail)
 	}
 	f := c06Tree(cs)
 	nodes := allNodes(f)
